@@ -179,10 +179,23 @@ def run_case(i, seed, tier):
     cfg = g.cfg(index=i + seed * 13)
     profile = common.PROFILES[(i // 2) % len(common.PROFILES)]
     nops = g.rng.choice([3, 6, 10, 16, 24])
-    h = common.History(cfg, seed * 1000003 + i, profile, max_size=10000)
-    h.extend(nops)
-    ops = list(h.ops)
-    h.sess.close()
+    if i % 5 == 2:
+        # El Torito: boot record, catalog, boot info table, hidden boot files
+        from harness.props import c11
+        cfg, pre, boot, post = c11.build(seed * 1000003 + i, tier)
+        ops = pre + boot + post
+        profile = 'boot'
+    elif i % 10 == 7:
+        # isohybrid: MBR/GPT/APM data is computed when extents are assigned
+        from harness.props import c12
+        cfg, ops = c12.build(seed * 1000003 + i, valid_only=True)
+        ops = [o for o in ops if o['op'] not in ('reopen', 'force_consistency', 'q_write')]
+        profile = 'hybrid'
+    else:
+        h = common.History(cfg, seed * 1000003 + i, profile, max_size=10000)
+        h.extend(nops)
+        ops = list(h.ops)
+        h.sess.close()
     rng = random.Random(seed * 7919 + i)
     scheds = schedules_for(rng, ops, tier)
     vio = c01.dedup(check(cfg, ops, seed * 1000003 + i, scheds, counters))
